@@ -1,19 +1,308 @@
-import Cppcms.C10.Model
-import Cppcms.C10.Spec
+import Cppcms.C10.Lemmas
+/-!
+# C10 — property theorems
+
+"When several application nodes use the network cache, each optionally with a local first-level
+cache, a fetch on any node returns only a value that is current on the cache server at the time of
+the fetch: after any node completes a store, trigger raise or clear, no node's later fetch returns
+the older value, even if it is still sitting in that node's local cache.  Values, trigger sets and
+deadlines survive the wire format unchanged for all contents, and keys are spread over several
+servers consistently."
+
+All statements are about `step`/`run` of `Model.lean`: any number of `cache_over_ip` clients (each
+with or without an L1, any limits), any number of servers, one global history of operations in the
+order the synchronous calls complete, every client ↔ server interaction through the wire codec of
+`Wire.lean` (header layout, opcodes, frame validation, up-to-date test, hash regenerated from the
+source).  Vocabulary: `Cluster.init sl ll` — servers with limits `sl`, clients with L1 limits `ll`
+(`none` = no L1); `sabs cl i` / `labs cl c` — the map held by server `i` / by the L1 of client `c`;
+`HistOk ops` — sizes fit (`OpOk`: < 2^31 bytes per entry, `int64_t` deadlines);
+`HistWF ops` — every store carries contents the wire format preserves (`Spec.WFwire`);
+`idealOf ops` — the ideal shared cache (`Spec.ideal`: one never-evicting map for all nodes).
+
+Hypotheses that appear: `ops.length < 2^64` (generation counters are `uint64_t`; a server restart,
+which resets the counter, is outside the quantifier), `HistOk`, and `HistWF` where marked `_partial`.
+-/
 namespace Cppcms.C10.Props
 open Cppcms Cppcms.C07 Cppcms.C10
 
-theorem shard_lt (n : Nat) (k : Key) (h : 0 < n) : shard n k < n := by
-  unfold shard Gen.hashFinish
-  split
-  · omega
-  · exact Nat.mod_lt _ h
+/-- sizes of every operation of the history fit the header fields -/
+def HistOk (ops : List Op) : Prop := ∀ op ∈ ops, OpOk op
 
-/-- finding tcp-trigger-nul -/
+theorem histOk_prefix {pre ops : List Op} (hp : pre <+: ops) (h : HistOk ops) : HistOk pre :=
+  fun op ho => h op (hp.subset ho)
+
+theorem run_init_eq (sl : List Nat) (ll : List (Option Nat)) (ops : List Op) (hok : HistOk ops) :
+    run (Cluster.init sl ll) ops = arun (Cluster.init sl ll) ops ∧ AllSmall (arun (Cluster.init sl ll) ops) :=
+  run_eq_arun (fresh_init sl ll).invs (allSmall_fresh (fresh_init sl ll)) ops hok
+
+theorem init_length (sl : List Nat) (ll : List (Option Nat)) : (Cluster.init sl ll).servers.length = sl.length := by
+  simp [Cluster.init]
+
+/-! ## keys are spread over the servers consistently -/
+
+/-- The server of a key is `shard n k` — a function of the number of servers and the key alone
+(no client state enters), below `n`; and a fetch or store of `k` by **any** client, with or
+without L1, touches no other server. -/
+theorem consistent_sharding :
+    Spec.ConsistentSharding shard ∧
+    (∀ (cl : Cluster) (c : Nat) (nowC nowS : Time) (k : Key) (t : Bool) (i : Nat), i ≠ shard cl.servers.length k →
+      (step cl (.fetch c nowC nowS k t)).1.servers[i]? = cl.servers[i]?) ∧
+    (∀ (cl : Cluster) (c : Nat) (nowS : Time) (k : Key) (v : Val) (ts : List Key) (d : Time) (i : Nat),
+      i ≠ shard cl.servers.length k → (step cl (.store c nowS k v ts d)).1.servers[i]? = cl.servers[i]?) := by
+  refine ⟨?_, ?_, ?_⟩
+  · intro n k h
+    unfold shard Gen.hashFinish
+    split
+    · omega
+    · exact Nat.mod_lt _ h
+  · intro cl c nowC nowS k t i hi
+    exact fetchOp_other wireT cl c nowC nowS k t i hi
+  · intro cl c nowS k v ts d i hi
+    exact storeOp_other wireT cl c nowS k v ts d i hi
+
+/-! ## the wire format -/
+
+/-- The byte image of a frame (header words little endian, then the payload), followed by whatever
+comes next on the socket, parses back to the same header and payload. -/
+theorem frame_roundtrip (h : Hdr) (data : Bytes) (hf : FrameWF h data) (rest : Bytes) :
+    frameOfBytes (frameBytes h data ++ rest) = (h, data) :=
+  frameOfBytes_frameBytes h data hf rest
+
+/-- full statement (false, see the counterexamples): for **all** contents the server performs the
+store the client asked for -/
+def WireRoundtripStoreFull : Prop :=
+  ∀ (s : State) (now : Time) (k : Key) (v : Val) (ts : List Key) (d : Time),
+    tcpStore s now k v ts d = (C07.step s (.store now k v (sortSet ts) d)).1
+
+/-- **Store direction.**  For contents satisfying `WFwire` (key non-empty; trigger names non-empty
+and NUL-free; less than 2^31 bytes; `int64_t` deadline) the frame `tcp_cache::store` builds is a
+well-formed frame, and what `session::store` makes of it is exactly the store that was asked for:
+same key, same value, same deadline, the same set of trigger names. -/
+theorem wire_roundtrip_store_partial (s : State) (now : Time) (k : Key) (v : Val) (ts : List Key) (d : Time)
+    (h : Spec.WFwire k v ts d) :
+    FrameWF (reqStore k v ts d).1 (reqStore k v ts d).2 ∧
+    tcpStore s now k v ts d = (C07.step s (.store now k v (sortSet ts) d)).1 ∧ ∀ t, t ∈ sortSet ts ↔ t ∈ ts := by
+  have h3 := namesSize_sortSet ts
+  have hsz : k.length + v.length + (trigBytes (sortSet ts)).length < 2147483648 := by
+    rw [length_trigBytes]; have := h.size; simp only [namesSize] at h3 ⊢; omega
+  refine ⟨frameWF_reqStore k v ts d (by omega), ?_, fun t => mem_sortSet⟩
+  rw [tcpStore_eq s now k v ts d hsz h.deadline]
+  unfold aStore
+  rw [storeOpOf_wf h]
+
+/-- **Reply direction.**  If the server holds `k ↦ (v, trigs, deadline, g)` (not expired), the entry
+fits a frame and its trigger names are NUL-free, then `tcp_cache::fetch` returns exactly `v`, the
+deadline and the generation, and the same set of trigger names. -/
+theorem wire_roundtrip_data_partial (s : State) (now : Time) (k : Key) (e : Entry)
+    (hk : k.length < 2147483648) (he : abs s k = some e) (hlive : ¬ e.deadline < now)
+    (hsm : EntrySmall e) (hnul : ∀ t ∈ e.trigs, (0 : UInt8) ∉ t) :
+    ∃ ts', (tcpFetch s now k true none).2 = .found e.val ts' e.deadline e.gen ∧ ∀ t, t ∈ ts' ↔ t ∈ e.trigs := by
+  have hf := abs_fetch_hit he hlive
+  have h1 : ∀ v ts d g, (C07.step s (.fetch now k)).2 = .hit v ts d g →
+      v.length + (trigBytes (sortSet ts)).length < 2147483648 ∧ -9223372036854775808 ≤ d ∧ d < 9223372036854775808 := by
+    intro v ts d g hh
+    rw [hf] at hh
+    cases hh
+    rw [length_trigBytes]
+    have := namesSize_sortSet e.trigs
+    exact ⟨by have := hsm.1; omega, hsm.2⟩
+  rw [tcpFetch_eq s now k true none (by omega) h1]
+  refine ⟨sortSet e.trigs, ?_, fun t => mem_sortSet⟩
+  unfold aFetch
+  rcases hst : C07.step s (.fetch now k) with ⟨s', o⟩
+  rw [hst] at hf
+  simp only at hf
+  subst hf
+  simp [backTrigs_nulfree e.trigs hnul]
+
+/-- **The real codec is the message-level model.**  As long as the sizes fit, one operation of the
+cluster over the real frames (headers, `uint32_t` length fields, frame validation, `strlen` loops)
+is *equal* to the operation over the message-level transport on which coherence is proved. -/
+theorem step_eq_astep {cl : Cluster} (hsm : AllSmall cl) {op : Op} (hok : OpOk op) : step cl op = astep cl op :=
+  C10.step_eq_astep hsm hok
+
+/-! ## generations and the L1 -/
+
+/-- **On one server every store gets a generation never used before**: two entries that server `i`
+held at any two points of the history under the same generation are the same entry — same key,
+value, trigger set, deadline. -/
+theorem gen_unique (sl : List Nat) (ll : List (Option Nat)) (ops : List Op) (hlen : ops.length < 2 ^ 64) (hok : HistOk ops)
+    (i : Nat) (pre₁ pre₂ : List Op) (h₁ : pre₁ <+: ops) (h₂ : pre₂ <+: ops) (k₁ k₂ : Key) (e₁ e₂ : Entry)
+    (he₁ : sabs (run (Cluster.init sl ll) pre₁) i k₁ = some e₁) (he₂ : sabs (run (Cluster.init sl ll) pre₂) i k₂ = some e₂)
+    (hg : e₁.gen = e₂.gen) : k₁ = k₂ ∧ e₁ = e₂ := by
+  rw [(run_init_eq sl ll pre₁ (histOk_prefix h₁ hok)).1] at he₁
+  rw [(run_init_eq sl ll pre₂ (histOk_prefix h₂ hok)).1] at he₂
+  exact (cinv_run (fresh_init sl ll) ops hlen).uniq i k₁ k₂ e₁ e₂ ⟨pre₁, h₁, he₁⟩ ⟨pre₂, h₂, he₂⟩ hg
+
+/-- **Every L1 entry was the server's entry**: whatever client `c`'s L1 holds for `k` — value,
+deadline, generation — the responsible server held for `k` at some earlier point of the history. -/
+theorem l1_inv (sl : List Nat) (ll : List (Option Nat)) (ops : List Op) (hlen : ops.length < 2 ^ 64) (hok : HistOk ops)
+    (c : Nat) (k : Key) (e : Entry) (h : labs (run (Cluster.init sl ll) ops) c k = some e) :
+    ∃ pre e', pre <+: ops ∧ sabs (run (Cluster.init sl ll) pre) (shard sl.length k) k = some e' ∧
+      e'.val = e.val ∧ e'.deadline = e.deadline ∧ e'.gen = e.gen := by
+  rw [(run_init_eq sl ll ops hok).1] at h
+  obtain ⟨e', ⟨pre, hp, hs⟩, r⟩ := (cinv_run (fresh_init sl ll) ops hlen).l1 c k e h
+  rw [init_length] at hs
+  refine ⟨pre, e', hp, ?_, r⟩
+  rw [(run_init_eq sl ll pre (histOk_prefix hp hok)).1]
+  exact hs
+
+/-! ## coherence -/
+
+/-- **Coherent fetch.**  After any history by any number of clients (with or without L1), a fetch
+on any node that returns `(v, deadline, g)` does so only if a direct fetch on the responsible
+server, at that moment and on the server's clock, returns the same `v`, deadline and `g`: an L1
+never makes a node see anything but what the server holds now.  No `WFwire` hypothesis: this holds
+also at the excluded points of the wire format. -/
+theorem coherent_fetch (sl : List Nat) (ll : List (Option Nat)) (ops : List Op) (hlen : ops.length < 2 ^ 64)
+    (hok : HistOk ops) (c : Nat) (nowC nowS : Time) (k : Key) (tags : Bool) (hk : k.length < 2147483648)
+    (v : Val) (ts : List Key) (d : Time) (g : Gen)
+    (hit : (step (run (Cluster.init sl ll) ops) (.fetch c nowC nowS k tags)).2 = .hit v ts d g) :
+    ∃ s, (run (Cluster.init sl ll) ops).servers[shard sl.length k]? = some s ∧
+      ∃ ts', (C07.step s (.fetch nowS k)).2 = .hit v ts' d g := by
+  obtain ⟨hr, hsm⟩ := run_init_eq sl ll ops hok
+  rw [hr] at hit ⊢
+  rw [C10.step_eq_astep hsm (op := .fetch c nowC nowS k tags) hk] at hit
+  have := coherent_fetch_server_abs (fresh_init sl ll) ops hlen c nowC nowS k tags v ts d g hit
+  rw [init_length] at this
+  exact this
+
+/-- full statement of the "no older value" clause (false at the excluded points, see the
+counterexamples): for **all** histories a hit is what the ideal shared cache holds -/
+def CoherentIdealFull : Prop :=
+  ∀ (sl : List Nat) (ll : List (Option Nat)) (ops : List Op), ops.length < 2 ^ 64 → HistOk ops →
+    ∀ (c : Nat) (nowC nowS : Time) (k : Key) (tags : Bool), k.length < 2147483648 →
+      ∀ (v : Val) (ts : List Key) (d : Time) (g : Gen),
+        (step (run (Cluster.init sl ll) ops) (.fetch c nowC nowS k tags)).2 = .hit v ts d g →
+        ∀ me, Spec.answerOk (idealOf ops) nowS k me false (.hit v ts d g) = true
+
+/-- **No node is served an older value.**  For histories whose stores carry contents the wire
+format preserves (`HistWF`): a fetch on any node that hits returns the value and deadline the
+*ideal shared cache* holds for the key at that moment — i.e. those of the latest store of the key by
+**any** node, and no node has since raised one of its triggers (or the key itself) or cleared the
+cache — and the entry is not expired on the server's clock.  This is `Spec.answerOk`, the predicate
+the check evaluates on the answers of the real clients. -/
+theorem coherent_fetch_ideal_partial (sl : List Nat) (ll : List (Option Nat)) (ops : List Op) (hlen : ops.length < 2 ^ 64)
+    (hok : HistOk ops) (hwf : HistWF ops) (c : Nat) (nowC nowS : Time) (k : Key) (tags : Bool) (hk : k.length < 2147483648)
+    (v : Val) (ts : List Key) (d : Time) (g : Gen)
+    (hit : (step (run (Cluster.init sl ll) ops) (.fetch c nowC nowS k tags)).2 = .hit v ts d g) (mayEvict : Bool) :
+    Spec.answerOk (idealOf ops) nowS k mayEvict false (.hit v ts d g) = true := by
+  obtain ⟨hr, hsm⟩ := run_init_eq sl ll ops hok
+  rw [hr] at hit
+  rw [C10.step_eq_astep hsm (op := .fetch c nowC nowS k tags) hk] at hit
+  obtain ⟨e, h1, h2, h3, h4⟩ := coherent_fetch_ideal_abs sl ll ops hlen hwf c nowC nowS k tags v ts d g hit
+  simp [Spec.answerOk, h1, h2, h3, h4]
+
+/-! ## the excluded points: the full statements are false of the code (known findings) -/
+
+private def k₁ : Key := [107]
+
+/-- **tcp-trigger-nul.**  Client 0 (no L1) stores `k = v1` depending on the trigger `a\0b`; the name
+is split on the server into `a` and `b`.  Client 1 (L1) raises `a\0b`: nothing is invalidated, and
+the next fetch on either node still returns `v1`, which the ideal shared cache no longer holds. -/
 theorem trigger_nul_counterexample :
-    let h : List Op := [.store 0 1000 [107] [118, 49] [[97, 0, 98]] 2000, .rise 1 [97, 0, 98]]
-    (step (run (Cluster.init [0] [none, some 5]) h) (.fetch 0 1000 1000 [107] true)).2
-      = .hit [118, 49] [[97], [98], [107]] 2000 0 := by
+    let h : List Op := [.store 0 1000 k₁ [118, 49] [[97, 0, 98]] 2000, .fetch 1 1000 1000 k₁ true, .rise 1 [97, 0, 98]]
+    HistOk h ∧
+    (step (run (Cluster.init [0] [none, some 5]) h) (.fetch 0 1000 1000 k₁ true)).2 = .hit [118, 49] [[97], [98], k₁] 2000 0 ∧
+    (step (run (Cluster.init [0] [none, some 5]) h) (.fetch 1 1000 1000 k₁ false)).2 = .hit [118, 49] [] 2000 0 ∧
+    idealOf h k₁ = none ∧
+    Spec.answerOk (idealOf h) 1000 k₁ false false (.hit [118, 49] [] 2000 0) = false := by
+  refine ⟨?_, by decide, by decide, by decide, by decide⟩
+  intro op ho
+  simp only [List.mem_cons, List.not_mem_nil, or_false] at ho
+  rcases ho with h | h | h <;> subst h <;> simp [OpOk, namesSize, inI64, k₁]
+
+/-- **tcp-trigger-empty.**  A store whose trigger set contains the empty name is answered with
+`error` and dropped; `tcp_cache::store` does not look at the answer.  The previous value stays on
+the server and is served to every node after the store completed. -/
+theorem trigger_empty_counterexample :
+    let h : List Op := [.store 0 1000 k₁ [111, 108, 100] [] 2000, .fetch 1 1000 1000 k₁ true, .store 0 1000 k₁ [110, 101, 119] [[]] 2000]
+    HistOk h ∧
+    (step (run (Cluster.init [0] [none, some 5]) h) (.fetch 0 1000 1000 k₁ false)).2 = .hit [111, 108, 100] [] 2000 0 ∧
+    (step (run (Cluster.init [0] [none, some 5]) h) (.fetch 1 1000 1000 k₁ false)).2 = .hit [111, 108, 100] [] 2000 0 ∧
+    (idealOf h k₁).map (·.val) = some [110, 101, 119] ∧
+    Spec.answerOk (idealOf h) 1000 k₁ false false (.hit [111, 108, 100] [] 2000 0) = false := by
+  refine ⟨?_, by decide, by decide, by decide, by decide⟩
+  intro op ho
+  simp only [List.mem_cons, List.not_mem_nil, or_false] at ho
+  rcases ho with h | h | h <;> subst h <;> simp [OpOk, namesSize, inI64, k₁]
+
+/-- both `_partial` statements are false without `WFwire` -/
+theorem coherentIdealFull_false : ¬ CoherentIdealFull := by
+  intro h
+  have := h [0] [none, some 5]
+    [.store 0 1000 k₁ [111, 108, 100] [] 2000, .fetch 1 1000 1000 k₁ true, .store 0 1000 k₁ [110, 101, 119] [[]] 2000]
+    (by decide) trigger_empty_counterexample.1 0 1000 1000 k₁ false (by decide) [111, 108, 100] [] 2000 0
+    trigger_empty_counterexample.2.1 false
+  exact absurd this (by rw [trigger_empty_counterexample.2.2.2.2]; decide)
+
+theorem wireRoundtripStoreFull_false : ¬ WireRoundtripStoreFull := by
+  intro h
+  have h1 := h (State.init 0 none) 1000 k₁ [118] [[]] 2000
+  -- the store was dropped: the server stays empty, whereas the store asked for leaves one entry
+  have hl : (tcpStore (State.init 0 none) 1000 k₁ [118] [[]] 2000).size = 0 := by decide
+  rw [h1] at hl
+  exact absurd hl (by decide)
+
+/-- **tcp-key-nul.**  The entry's own key is one of its triggers and travels back NUL-terminated:
+for the key `k\0x` a fetch that asks for the trigger set receives `{k, x}`; the name `k\0x`, which
+the ideal shared cache (and the thread cache) reports, is missing. -/
+theorem key_nul_counterexample :
+    let kk : Key := [107, 0, 120]
+    let h : List Op := [.store 0 1000 kk [118] [] 2000]
+    HistOk h ∧ HistWF h ∧
+    (step (run (Cluster.init [0] [none, some 5]) h) (.fetch 0 1000 1000 kk true)).2 = .hit [118] [[107], [120]] 2000 0 ∧
+    (idealOf h kk).map (·.trigs) = some [kk] ∧
+    Spec.answerOk (idealOf h) 1000 kk false true (.hit [118] [[107], [120]] 2000 0) = false ∧
+    Spec.answerOk (idealOf h) 1000 kk false false (.hit [118] [[107], [120]] 2000 0) = true := by
+  refine ⟨?_, ?_, by decide, by decide, by decide, by decide⟩
+  · intro op ho
+    simp only [List.mem_cons, List.not_mem_nil, or_false] at ho
+    subst ho; simp [OpOk, namesSize, inI64]
+  · intro op ho
+    simp only [List.mem_cons, List.not_mem_nil, or_false] at ho
+    subst ho
+    exact ⟨by decide, by simp, by simp, by simp, by decide⟩
+
+/-! ## non-vacuity -/
+
+private def t₁ : Key := [116]
+/-- two servers, three clients (L1 with limit 5, no L1, unlimited L1); every store is `WFwire` -/
+private def h₁ : List Op :=
+  [.store 0 1000 k₁ [1, 0, 2] [t₁] 2000, .fetch 1 1001 1001 k₁ true, .fetch 0 1001 1001 k₁ true,
+   .store 2 1002 k₁ [] [] 2000, .fetch 0 1003 1003 k₁ false]
+
+example : HistOk h₁ := by
+  intro op ho
+  simp only [h₁, List.mem_cons, List.not_mem_nil, or_false] at ho
+  rcases ho with h | h | h | h | h <;> subst h <;> simp [OpOk, namesSize, inI64, k₁, t₁]
+
+example : HistWF h₁ := by
+  intro op ho
+  simp only [h₁, List.mem_cons, List.not_mem_nil, or_false] at ho
+  rcases ho with h | h | h | h | h <;> subst h <;> (try trivial)
+  · exact ⟨by decide, by simp [t₁], by simp [t₁], by simp [k₁, t₁], by decide⟩
+  · exact ⟨by decide, by simp, by simp, by simp [k₁], by decide⟩
+
+-- client 0's L1 holds the first value (generation 0); after client 2 replaced it the L1 entry is revalidated,
+-- refreshed, and the *new* (empty) value is returned — with the old entry's trigger still in the returned set
+example : (step (run (Cluster.init [0, 0] [some 5, none, some 0]) (h₁.take 3)) (.fetch 0 1001 1001 k₁ true)).2
+    = .hit [1, 0, 2] [k₁, t₁] 2000 0 := by decide
+example : (step (run (Cluster.init [0, 0] [some 5, none, some 0]) (h₁.take 4)) (.fetch 0 1003 1003 k₁ true)).2
+    = .hit [] [k₁, t₁, k₁] 2000 1 := by decide
+example : (step (run (Cluster.init [0, 0] [some 5, none, some 0]) h₁) (.fetch 0 1003 1003 k₁ true)).2
+    = .hit [] [t₁, k₁] 2000 1 := by decide
+example : (idealOf h₁ k₁).map (·.val) = some [] := by decide
+-- rise by the client without L1 invalidates what sits in the others' L1s
+example : (step (run (Cluster.init [0, 0] [some 5, none, some 0]) (h₁ ++ [.rise 1 k₁])) (.fetch 0 1003 1003 k₁ true)).2 = .miss := by
   decide
+-- an L1 entry and the server entry it copies (`l1_inv`), same generation (`gen_unique`)
+example : (labs (run (Cluster.init [0, 0] [some 5, none, some 0]) (h₁.take 3)) 0 k₁).map (·.gen) = some 0 ∧
+    (sabs (run (Cluster.init [0, 0] [some 5, none, some 0]) (h₁.take 1)) (shard 2 k₁) k₁).map (·.gen) = some 0 := by decide
+-- hypotheses of `wire_roundtrip_store_partial` / `wire_roundtrip_data_partial`
+example : Spec.WFwire k₁ [0, 255] [t₁, [1, 2]] (-5) := ⟨by decide, by simp [t₁], by simp [t₁], by simp [k₁, t₁], by decide⟩
+example : FrameWF (reqStore k₁ [0, 255] [t₁] 77).1 (reqStore k₁ [0, 255] [t₁] 77).2 :=
+  (wire_roundtrip_store_partial (State.init 0 none) 0 k₁ [0, 255] [t₁] 77
+    ⟨by decide, by simp [t₁], by simp [t₁], by simp [k₁, t₁], by decide⟩).1
 
 end Cppcms.C10.Props
